@@ -72,10 +72,13 @@ def execute(specs, model, bres, chk, stream='whole-file', want_live_desc=False):
 
 
 def rewrite_runs(prop, tier, model, bres, chk, n_quick, n_thorough, stream='rewrite', kinds=None):
-    """write a specification, then change the identity of objects through the public setters (new unique name,
-    or another origin reference) and write the same DLISFile again: -> Runs of the *second* file against the changed
-    specification, for the property's oracles.  Objects with a same-named sibling in their set are left alone
-    (copy numbers after a rename are a known C14 finding), channels too (their names key the data)."""
+    """write a specification, then change things through the public attributes / setters — the identity of objects
+    (new unique name, another origin reference), the storage unit label (sequence number, set identifier), the file
+    header (sequence number), the payload of a no-format record, and (data passed as a dict) the arrays handed to
+    the write — and write the same DLISFile again: -> Runs of the *second* file against the changed specification,
+    for the property's oracles.  Objects with a same-named sibling in their set are left alone (copy numbers after a
+    rename are a known C14 finding), channels too (their names key the data); frames carry no index type (derived
+    index values persisting into the next write are a known C13 finding)."""
     import pickle
     R = rng(prop, stream)
     n = n_quick if tier == 'quick' else n_thorough
@@ -84,15 +87,20 @@ def rewrite_runs(prop, tier, model, bres, chk, n_quick, n_thorough, stream='rewr
     try:
         for i in range(n):
             spec = filegen.gen_spec(R, n_lf=R.choice([1, 1, 2]), small=(i % 2 == 0), with_index=False, kinds=kinds)
-            spec['write'].update({'data_kind': 'inline', 'from_idx': 0, 'to_idx': None, 'input_chunk_size': None,
+            dk = R.choice(['inline', 'dict'])
+            spec['write'].update({'data_kind': dk, 'from_idx': 0, 'to_idx': None, 'input_chunk_size': None,
                                   'output_chunk_size': 2**20})
             spec['hc'] = False
+            spec['object_routes'] = False
             st0, b = call(filegen.build, spec)
             if st0 != 'ok':
                 chk.count(f'{stream}:build-{b}')
                 continue
             p1 = f'{tmp}/w1.dlis'
-            s1, e1 = call(b.df.write, p1, output_chunk_size=2**20)
+            kw1 = dict(output_chunk_size=2**20)
+            if dk == 'dict':
+                kw1['data'] = dict(b.data)
+            s1, e1 = call(b.df.write, p1, **kw1)
             if s1 != 'ok':
                 chk.count(f'{stream}:first-write-{e1}')
                 continue
@@ -100,7 +108,6 @@ def rewrite_runs(prop, tier, model, bres, chk, n_quick, n_thorough, stream='rewr
             muts = []
             for li, lf in enumerate(spec['lfs']):
                 objs = lf['objects']
-                origins = [o for o in objs if o['kind'] == 'origin']
                 for oi, o in enumerate(objs):
                     if o['kind'] in ('channel', 'origin'):
                         continue
@@ -120,10 +127,56 @@ def rewrite_runs(prop, tier, model, bres, chk, n_quick, n_thorough, stream='rewr
                         b.handles[li][oi].origin_reference = newref
                         mutated['lfs'][li]['objects'][oi]['origin_reference'] = newref
                         muts.append(f'logical file {li} object #{oi} ({o["kind"]}).origin_reference = {newref}')
+                if R.random() < 0.4:
+                    seq = R.choice([2, 77, 9999999999, lf['fh_sequence_number'] + 1 if lf['fh_sequence_number'] < 9999999999 else 5])
+                    b.df.logical_files[li].file_header.sequence_number = seq
+                    mutated['lfs'][li]['fh_sequence_number'] = seq
+                    muts.append(f'logical file {li}: file_header.sequence_number = {seq}')
+            if R.random() < 0.4:
+                sul = b.df.storage_unit_label
+                newseq = R.choice([2, 3, 9999, 0])
+                newid = R.choice(['SECOND-UNIT', 'B', 'Y' * 60])
+                sul.sequence_number = newseq
+                sul.set_identifier = newid
+                mutated['sul']['sul_sequence_number'] = newseq
+                mutated['sul']['set_identifier'] = newid
+                muts.append(f'storage_unit_label.sequence_number = {newseq}; .set_identifier = {newid!r}')
+            kw2 = dict(output_chunk_size=2**20)
+            if dk == 'dict':
+                # other arrays (same names, shapes and dtypes) are handed to the second write
+                d2 = {}
+                for (li, oi, arr) in b.arrays:
+                    o = spec['lfs'][li]['objects'][oi]
+                    key = next(k for k, v in b.data.items() if v is arr)
+                    if R.random() < 0.7:
+                        newdata = filegen.gen_data(R, o['dtype'], o['width'], o['data'].shape[0], None)
+                        if o.get('cast_dtype'):
+                            newdata = (np.array([R.randrange(0, 100) for _ in range(newdata.size)]).reshape(newdata.shape)).astype(o['dtype'])
+                        mutated['lfs'][li]['objects'][oi]['data'] = newdata
+                        d2[key] = newdata
+                        muts.append(f'second write: other data for channel #{oi} of logical file {li}')
+                    else:
+                        d2[key] = arr
+                kw2['data'] = d2
+            elif R.random() < 0.5:
+                # channels created with their data; the second write is handed other arrays for some of them under the
+                # same data set names: what is passed to write() takes precedence
+                d2 = {}
+                for (li, oi, arr) in b.arrays:
+                    if R.random() < 0.6:
+                        o = spec['lfs'][li]['objects'][oi]
+                        newdata = filegen.gen_data(R, o['dtype'], o['width'], o['data'].shape[0], None)
+                        if o.get('cast_dtype'):
+                            newdata = (np.array([R.randrange(0, 100) for _ in range(newdata.size)]).reshape(newdata.shape)).astype(o['dtype'])
+                        mutated['lfs'][li]['objects'][oi]['data'] = newdata
+                        d2[b.handles[li][oi].dataset_name] = newdata
+                        muts.append(f'second write: data={{...}} overrides the inline data of channel #{oi} of logical file {li}')
+                if d2:
+                    kw2['data'] = d2
             if not muts:
                 continue
             p2 = f'{tmp}/w2.dlis'
-            s2, e2 = call(b.df.write, p2, output_chunk_size=2**20)
+            s2, e2 = call(b.df.write, p2, **kw2)
             r = Run()
             r.index, r.spec = i, mutated
             r.case = {'index': i, 'spec': describe(spec), 'after_first_write': muts, 'then': 'the same DLISFile is written again'}
@@ -148,6 +201,83 @@ def rewrite_runs(prop, tier, model, bres, chk, n_quick, n_thorough, stream='rewr
     finally:
         shutil.rmtree(tmp, ignore_errors=True)
     return runs
+
+
+def refused_then_corrected(prop, tier, model, bres, chk, n_quick, n_thorough, stream='refused-then-corrected'):
+    """a write refused while a set was being turned into bytes (an object that is inconsistent only at write time: a
+    PARAMETER with several values and no zones, a COMPUTATION whose values and zones differ in number, a CHANNEL whose
+    element limit is below its dimension), the object corrected through its attributes, the same DLISFile written
+    again: the file must be the one a fresh specification (built with the corrected object) gives"""
+    R = rng(prop, stream)
+    n = n_quick if tier == 'quick' else n_thorough
+    tmp = tempfile.mkdtemp(prefix='verif_rc_')
+    try:
+        for i in range(n):
+            spec = filegen.gen_spec(R, n_lf=1, small=(i % 2 == 0), with_index=False)
+            spec['write'].update({'data_kind': 'inline', 'from_idx': 0, 'to_idx': None, 'input_chunk_size': None,
+                                  'output_chunk_size': 2**20})
+            spec['hc'] = False
+            spec['object_routes'] = False
+            kind = R.choice(['parameter', 'computation', 'channel-limit'])
+            position = R.choice(['first', 'last'])
+
+            def add_object(b, good):
+                L = b.df.logical_files[0]
+                if kind == 'parameter':
+                    return L.add_parameter('LATE-P', values=[1.5] if good else [1.5, 2.5, 3.5], long_name='late parameter')
+                if kind == 'computation':
+                    z = L.add_zone('LATE-Z')
+                    return L.add_computation('LATE-C', values=[1.0] if good else [1.0, 2.0], zones=[z])
+                return L.add_channel('LATE-CH', dimension=[4], element_limit=[4] if good else [2],
+                                     data=np.zeros((3, 4)))
+
+            def fix(obj):
+                if kind == 'parameter':
+                    obj.values.value = [1.5]
+                elif kind == 'computation':
+                    obj.values.value = [1.0]
+                else:
+                    obj.element_limit.value = [4]
+            stf, bf = call(filegen.build, spec)
+            if stf != 'ok':
+                continue
+            st_a, _ = call(add_object, bf, True)
+            sf, ef = call(bf.df.write, f'{tmp}/fresh.dlis', output_chunk_size=2**20)
+            if st_a != 'ok' or sf != 'ok':
+                chk.count(f'{stream}:fresh-not-writable')
+                continue
+            fresh = open(f'{tmp}/fresh.dlis', 'rb').read()
+            st0, b = call(filegen.build, spec)
+            if st0 != 'ok':
+                continue
+            st_b, obj = call(add_object, b, False)
+            if st_b != 'ok':
+                chk.count(f'{stream}:{kind}:rejected-at-add')
+                continue
+            s1, e1 = call(b.df.write, f'{tmp}/w.dlis', output_chunk_size=2**20)
+            chk.count(f'{stream}:{kind}:first-write-{s1}')
+            if s1 == 'ok':
+                continue            # not refused: nothing to correct
+            call(fix, obj)
+            s2, e2 = call(b.df.write, f'{tmp}/w.dlis', output_chunk_size=2**20)
+            case = {'index': i, 'spec': describe(spec), 'late_object': kind, 'first_write': f'refused ({e1})',
+                    'then': 'object corrected through its attribute, same DLISFile written again'}
+            chk.case(stream, nontrivial_key=(stream, i), sample={'index': i, 'kind': kind, 'first': e1, 'second': s2})
+            if s2 != 'ok':
+                chk.fail(f'{stream}:second-write-raises', case, f'the write after the correction raises {e2}')
+                continue
+            data2 = open(f'{tmp}/w.dlis', 'rb').read()
+            if bres.ok:
+                rep = model.ask([filegen.dump_req(spec, data2)])[0]
+                if not rep.startswith('ok') or 'UNDECODABLE' in rep:
+                    chk.fail(f'{stream}:undecodable', case, 'the file written after the correction does not decode under the '
+                                                            'strict reader')
+                    continue
+            if data2 != fresh:
+                chk.fail(f'{stream}:differs-from-fresh', case, 'the file written after the correction differs from the file of '
+                                                               'a fresh specification built with the corrected object')
+    finally:
+        shutil.rmtree(tmp, ignore_errors=True)
 
 
 def sample_of(r):
